@@ -41,34 +41,35 @@ Qed.
 
 (** * carrying an invariant of the transaction view through every history *)
 Section Lift.
+Variable strict : bool.
 Variable P : (bytes -> option bytes) -> Prop.
 Variable okop : cop -> bool.
 Hypothesis P_ext : forall f g, (forall x, f x = g x) -> P f -> P g.
 Hypothesis Hexec : forall track h s o s', good s -> cop_wf o = true -> okop o = true ->
-  P (glk s) -> exec true track h s o = Ok s' -> P (glk s').
+  P (glk s) -> exec strict track h s o = Ok s' -> P (glk s').
 
 Definition tx_okop (t : tx) : bool :=
   match t with TDeploy a code => okop (CCreate a code) | TInvoke ops => forallb okop ops end.
 
 Lemma exec_all_inv track h : forall ops s s', good s -> forallb cop_wf ops = true -> forallb okop ops = true ->
-  P (glk s) -> exec_all true track h s ops = Ok s' -> good s' /\ P (glk s').
+  P (glk s) -> exec_all strict track h s ops = Ok s' -> good s' /\ P (glk s').
 Proof.
   induction ops as [|o r IH]; intros s s' G W K Hp E; simpl in *.
   - inversion E; subst. auto.
   - apply andb_prop in W. destruct W as [Wo Wr]. apply andb_prop in K. destruct K as [Ko Kr].
-    destruct (exec true track h s o) as [s1|e] eqn:E1; [|discriminate].
-    destruct (exec_good track h s o s1 G Wo E1) as [G1 _].
-    apply (IH s1 s' G1 Wr Kr (Hexec true track h s o s1 G Wo Ko Hp E1) E).
+    destruct (exec strict track h s o) as [s1|e] eqn:E1; [|discriminate].
+    destruct (exec_good_any strict track h s o s1 G Wo E1) as [G1 _].
+    apply (IH s1 s' G1 Wr Kr (Hexec track h s o s1 G Wo Ko Hp E1) E).
 Qed.
 
 Lemma run_tx_inv track h s t : good s -> tx_wf t = true -> tx_okop t = true -> P (bglk s) ->
-  good (fst (run_tx true track h s t)) /\ P (bglk (fst (run_tx true track h s t))).
+  good (fst (run_tx strict track h s t)) /\ P (bglk (fst (run_tx strict track h s t))).
 Proof.
   intros G W K Hp. pose proof (good_reset s G) as G0.
   assert (P0 : P (glk (cache_reset s))) by (eapply P_ext; [|exact Hp]; intro x; symmetry; apply glk_reset).
   assert (Pb0 : P (bglk (cache_reset s))) by exact Hp.
   unfold run_tx. destruct t as [a code|ops]; cbn [tx_wf tx_okop] in *.
-  - pose proof (Hexec true track h (cache_reset s) (CCreate a code)) as HC. cbn [exec cop_wf] in HC.
+  - pose proof (Hexec track h (cache_reset s) (CCreate a code)) as HC. cbn [exec cop_wf] in HC.
     destruct (get_contract (cache_reset s) a) as [[c|] [|]]; cbn [fst].
     + split; [exact G0|exact Pb0].
     + split; [apply good_commit; exact G0|]. eapply P_ext; [|exact P0]. intro x. symmetry. apply bglk_commit, good_sorted, G0.
@@ -78,29 +79,29 @@ Proof.
       split; [apply good_commit; exact G1|].
       eapply P_ext; [intro x; symmetry; apply bglk_commit, good_sorted, G1|].
       apply (HC _ G0 W K P0 eq_refl).
-  - destruct (exec_all true track h (cache_reset s) ops) as [s1|[|]] eqn:E; cbn [fst]; try (split; [exact G0|exact Pb0]).
+  - destruct (exec_all strict track h (cache_reset s) ops) as [s1|[|]] eqn:E; cbn [fst]; try (split; [exact G0|exact Pb0]).
     destruct (exec_all_inv track h ops _ s1 G0 W K P0 E) as [G1 P1].
     split; [apply good_commit; exact G1|]. eapply P_ext; [|exact P1]. intro x. symmetry. apply bglk_commit, good_sorted, G1.
 Qed.
 
 Lemma run_txs_inv track h : forall ts s, good s -> forallb tx_wf ts = true -> forallb tx_okop ts = true -> P (bglk s) ->
-  good (fst (run_txs true track h s ts)) /\ P (bglk (fst (run_txs true track h s ts))).
+  good (fst (run_txs strict track h s ts)) /\ P (bglk (fst (run_txs strict track h s ts))).
 Proof.
   induction ts as [|t r IH]; intros s G W K Hp; simpl in *; [auto|].
   apply andb_prop in W. destruct W as [Wt Wr]. apply andb_prop in K. destruct K as [Kt Kr].
   destruct (run_tx_inv track h s t G Wt Kt Hp) as [G1 P1].
-  destruct (run_tx true track h s t) as [s1 o]. cbn [fst] in *.
-  specialize (IH s1 G1 Wr Kr P1). destruct (run_txs true track h s1 r) as [s2 os]. exact IH.
+  destruct (run_tx strict track h s t) as [s1 o]. cbn [fst] in *.
+  specialize (IH s1 G1 Wr Kr P1). destruct (run_txs strict track h s1 r) as [s2 os]. exact IH.
 Qed.
 
 Definition block_okop (b : block) : bool := forallb tx_okop (b_txs b).
 
 Lemma run_block_inv track s b : good s -> block_wf b = true -> block_okop b = true -> P (bglk s) ->
-  good (fst (run_block true track s b)) /\ P (bglk (fst (run_block true track s b))).
+  good (fst (run_block strict track s b)) /\ P (bglk (fst (run_block strict track s b))).
 Proof.
   intros G W K Hp. unfold run_block.
   destruct (run_txs_inv track (b_height b) (b_txs b) s G W K Hp) as [G1 P1].
-  destruct (run_txs true track (b_height b) s (b_txs b)) as [s1 os]. cbn [fst] in *.
+  destruct (run_txs strict track (b_height b) s (b_txs b)) as [s1 os]. cbn [fst] in *.
   split.
   - apply overlay_reset_good, good_overlay_commit, good_reset, G1.
   - eapply P_ext; [|exact P1]. intro x. symmetry.
@@ -108,13 +109,13 @@ Proof.
 Qed.
 
 Theorem run_chain_inv track : forall bs s, good s -> forallb block_wf bs = true -> forallb block_okop bs = true ->
-  P (bglk s) -> good (fst (run_chain true track s bs)) /\ P (bglk (fst (run_chain true track s bs))).
+  P (bglk s) -> good (fst (run_chain strict track s bs)) /\ P (bglk (fst (run_chain strict track s bs))).
 Proof.
   induction bs as [|b r IH]; intros s G W K Hp; simpl in *; [auto|].
   apply andb_prop in W. destruct W as [Wb Wr]. apply andb_prop in K. destruct K as [Kb Kr].
   destruct (run_block_inv track s b G Wb Kb Hp) as [G1 P1].
-  destruct (run_block true track s b) as [s1 o]. cbn [fst] in *.
-  specialize (IH s1 G1 Wr Kr P1). destruct (run_chain true track s1 r) as [s2 os]. exact IH.
+  destruct (run_block strict track s b) as [s1 o]. cbn [fst] in *.
+  specialize (IH s1 G1 Wr Kr P1). destruct (run_chain strict track s1 r) as [s2 os]. exact IH.
 Qed.
 End Lift.
 
@@ -144,7 +145,7 @@ Theorem chain_dead track bs s : good s -> forallb block_wf bs = true -> existsb 
   deadf a (bglk s) ->
   good (fst (run_chain true track s bs)) /\ deadf a (bglk (fst (run_chain true track s bs))).
 Proof.
-  intros G W U D. apply (run_chain_inv (deadf a) keeps (deadf_ext a) exec_dead'); auto.
+  intros G W U D. apply (run_chain_inv true (deadf a) keeps (deadf_ext a) exec_dead'); auto.
   apply existsb_false_forallb in U. rewrite forallb_forall in *. intros b Hb.
   apply block_keeps. apply negb_true_iff. apply U; exact Hb.
 Qed.
@@ -185,7 +186,7 @@ Proof.
   induction ts as [|t r IH]; intros s G W U D; simpl in *; [constructor|].
   apply andb_prop in W. destruct W as [Wt Wr]. apply orb_false_iff in U. destruct U as [Ut Ur].
   pose proof (run_tx_dead_touch track h s t G Wt Ut D) as R.
-  destruct (run_tx_inv (deadf a) keeps (deadf_ext a) exec_dead' track h s t G Wt (tx_keeps t Ut) D) as [G1 D1].
+  destruct (run_tx_inv true (deadf a) keeps (deadf_ext a) exec_dead' track h s t G Wt (tx_keeps t Ut) D) as [G1 D1].
   destruct (run_tx true track h s t) as [s1 o]. cbn [fst snd] in *.
   specialize (IH s1 G1 Wr Ur D1). destruct (run_txs true track h s1 r) as [s2 os]. cbn [snd] in *.
   constructor; [exact R|exact IH].
@@ -198,7 +199,7 @@ Proof.
   induction bs as [|b r IH]; intros s G W U D; simpl in *; [constructor|].
   apply andb_prop in W. destruct W as [Wb Wr]. apply orb_false_iff in U. destruct U as [Ub Ur].
   pose proof (run_txs_dead_touch track (b_height b) (b_txs b) s G Wb Ub D) as R.
-  destruct (run_block_inv (deadf a) keeps (deadf_ext a) exec_dead' track s b G Wb (block_keeps b Ub) D) as [G1 D1].
+  destruct (run_block_inv true (deadf a) keeps (deadf_ext a) exec_dead' track s b G Wb (block_keeps b Ub) D) as [G1 D1].
   unfold run_block in *. destruct (run_txs true track (b_height b) s (b_txs b)) as [s1 os]. cbn [fst snd] in *.
   specialize (IH _ G1 Wr Ur D1). destruct (run_chain true track _ r) as [s2 oss]. cbn [snd] in *.
   constructor; [exact R|exact IH].
@@ -211,7 +212,7 @@ Theorem chain_orph a track bs s : is_addr a = true -> good s -> forallb block_wf
   orphf a (bglk s) -> good (fst (run_chain true track s bs)) /\ orphf a (bglk (fst (run_chain true track s bs))).
 Proof.
   intros Aa G W O.
-  apply (run_chain_inv (orphf a) (fun _ => true) (orphf_ext a)
+  apply (run_chain_inv true (orphf a) (fun _ => true) (orphf_ext a)
            (fun track h s o s' G W _ => exec_orph a Aa track h s o s' G W)); auto.
   clear. induction bs as [|b r IH]; simpl; [reflexivity|]. rewrite IH, andb_true_r.
   unfold block_okop. induction (b_txs b) as [|t ts IHt]; simpl; [reflexivity|]. rewrite IHt, andb_true_r.
@@ -272,4 +273,87 @@ Proof.
   intros G H. pose proof (good_sorted s G) as Hs. destruct (good_wf s G) as (Wc & Wo & Wst & _ & _).
   rewrite (cache_iter_refines ST_STORAGE s a Hs Wc Wo Wst). fold (SP a). fold (listing a s).
   rewrite (listing_empty a s Hs H). reflexivity.
+Qed.
+
+(** * the marker and the missing record, for all histories of the code AS IT IS ([strict] free) *)
+Section Mark.
+Variable strict : bool.
+Variable a : bytes.
+Hypothesis Aa : is_addr a = true.
+
+Lemma exec_mark' track h s o s' : good s -> cop_wf o = true -> keeps a o = true ->
+  markf a (glk s) -> exec strict track h s o = Ok s' -> markf a (glk s').
+Proof. intros G W K. apply (exec_mark a strict track h s o s' G W). apply negb_true_iff. exact K. Qed.
+
+Theorem chain_mark track bs s : good s -> forallb block_wf bs = true -> existsb (block_unsets a) bs = false ->
+  markf a (bglk s) ->
+  good (fst (run_chain strict track s bs)) /\ markf a (bglk (fst (run_chain strict track s bs))).
+Proof.
+  intros G W U D. apply (run_chain_inv strict (markf a) (keeps a) (markf_ext a) exec_mark'); auto.
+  apply existsb_false_forallb in U. rewrite forallb_forall in *. intros b Hb.
+  apply block_keeps. apply negb_true_iff. apply U; exact Hb.
+Qed.
+
+Lemma exec_all_mark_claim track h : forall ops s, good s -> forallb cop_wf ops = true ->
+  forallb (keeps a) ops = true -> markf a (glk s) -> existsb (cop_claims a) ops = true ->
+  exists e, exec_all strict track h s ops = Err e.
+Proof.
+  induction ops as [|o r IH]; intros s G W K D T; simpl in *; [discriminate|].
+  apply andb_prop in W. destruct W as [Wo Wr]. apply andb_prop in K. destruct K as [Ko Kr].
+  destruct (cop_claims a o) eqn:To.
+  - rewrite (exec_mark_refuses a strict track h s o G D To). eexists; reflexivity.
+  - simpl in T. destruct (exec strict track h s o) as [s1|e] eqn:E1; [|eexists; reflexivity].
+    destruct (exec_good_any strict track h s o s1 G Wo E1) as [G1 _].
+    apply (IH s1 G1 Wr Kr (exec_mark' track h s o s1 G Wo Ko D E1) T).
+Qed.
+
+Lemma run_tx_mark_claim track h s t : good s -> tx_wf t = true -> tx_unsets a t = false ->
+  markf a (bglk s) -> tx_claims a t = true -> snd (run_tx strict track h s t) <> Committed.
+Proof.
+  intros G W U D T. pose proof (good_reset s G) as G0.
+  assert (D0 : markf a (glk (cache_reset s))) by (eapply markf_ext; [|exact D]; intro x; symmetry; apply glk_reset).
+  unfold run_tx. destruct t as [b code|ops]; cbn [tx_wf tx_unsets tx_claims] in *.
+  - apply bytes_eqb_eq in T. subst b.
+    rewrite (mark_get_contract a (cache_reset s) (good_sorted _ G0) D0). cbn [snd]. discriminate.
+  - apply existsb_false_forallb in U.
+    destruct (exec_all_mark_claim track h ops _ G0 W U D0 T) as [e E]. rewrite E.
+    destruct e; cbn [snd]; discriminate.
+Qed.
+
+Definition refused_when_claiming (t : tx) (o : outcome) : Prop := tx_claims a t = true -> o <> Committed.
+
+Lemma run_txs_mark_claim track h : forall ts s, good s -> forallb tx_wf ts = true ->
+  existsb (tx_unsets a) ts = false -> markf a (bglk s) ->
+  Forall2 refused_when_claiming ts (snd (run_txs strict track h s ts)).
+Proof.
+  induction ts as [|t r IH]; intros s G W U D; simpl in *; [constructor|].
+  apply andb_prop in W. destruct W as [Wt Wr]. apply orb_false_iff in U. destruct U as [Ut Ur].
+  pose proof (run_tx_mark_claim track h s t G Wt Ut D) as R.
+  destruct (run_tx_inv strict (markf a) (keeps a) (markf_ext a) exec_mark' track h s t G Wt (tx_keeps a t Ut) D) as [G1 D1].
+  destruct (run_tx strict track h s t) as [s1 o]. cbn [fst snd] in *.
+  specialize (IH s1 G1 Wr Ur D1). destruct (run_txs strict track h s1 r) as [s2 os]. cbn [snd] in *.
+  constructor; [exact R|exact IH].
+Qed.
+
+Theorem chain_mark_claim track : forall bs s, good s -> forallb block_wf bs = true ->
+  existsb (block_unsets a) bs = false -> markf a (bglk s) ->
+  Forall2 (fun b os => Forall2 refused_when_claiming (b_txs b) os) bs (snd (run_chain strict track s bs)).
+Proof.
+  induction bs as [|b r IH]; intros s G W U D; simpl in *; [constructor|].
+  apply andb_prop in W. destruct W as [Wb Wr]. apply orb_false_iff in U. destruct U as [Ub Ur].
+  pose proof (run_txs_mark_claim track (b_height b) (b_txs b) s G Wb Ub D) as R.
+  destruct (run_block_inv strict (markf a) (keeps a) (markf_ext a) exec_mark' track s b G Wb (block_keeps a b Ub) D) as [G1 D1].
+  unfold run_block in *. destruct (run_txs strict track (b_height b) s (b_txs b)) as [s1 os]. cbn [fst snd] in *.
+  specialize (IH _ G1 Wr Ur D1). destruct (run_chain strict track _ r) as [s2 oss]. cbn [snd] in *.
+  constructor; [exact R|exact IH].
+Qed.
+End Mark.
+
+Lemma mark_obs a s : sorted_state s ->
+  markf a (glk s) <-> is_destroyed s a = true /\ contract_record s a = [].
+Proof.
+  intro Hs. unfold markf. rewrite is_destroyed_glk, contract_record_glk by exact Hs. rewrite ov_nil_iff.
+  split; intros [A B]; split; auto.
+  - destruct (glk s (DK a)); [reflexivity|congruence].
+  - destruct (glk s (DK a)); [discriminate|discriminate].
 Qed.
